@@ -96,7 +96,7 @@ func (vc *FuncVC) execBlock(b *ssa.BasicBlock) {
 			es := vc.L.sizeOf(sl.Elem())
 			p := st.cnt
 			st.cnt = vc.define("cnt", Add(st.cnt, Add(Mul(IntLit(es), vc.scalar(ins.Cap)), IntLit(1))))
-			vc.vals[ins] = &Val{Kind: vSlice, Elems: []*Val{{T: p}, {T: ln}}, GoType: ins.Type()}
+			vc.vals[ins] = &Val{Kind: vSlice, Elems: []*Val{{T: p}, {T: ln}, {T: vc.scalar(ins.Cap)}}, GoType: ins.Type()}
 			vc.note("make([]T) contents not zero-initialised in the model at %s", vc.pos(ins.Pos()))
 		case *ssa.TypeAssert, *ssa.MakeMap, *ssa.MapUpdate, *ssa.Lookup, *ssa.Range, *ssa.Next,
 			*ssa.MakeClosure, *ssa.Defer, *ssa.Go, *ssa.Select, *ssa.Send, *ssa.RunDefers, *ssa.MakeChan, *ssa.SliceToArrayPointer, *ssa.MultiConvert:
@@ -273,6 +273,23 @@ func (vc *FuncVC) execSlice(st *State, reach Term, ins *ssa.Slice) {
 	if ins.Low != nil {
 		lo = vc.scalar(ins.Low)
 	}
+	// S: 0 <= low <= high <= max <= capacity (a slice may be re-sliced up to its capacity)
+	bounds := func(hi, capT Term) {
+		mx := capT
+		g := []Term{Le(IntLit(0), lo), Le(lo, hi)}
+		if ins.Max != nil {
+			mx = vc.scalar(ins.Max)
+			g = append(g, Le(hi, mx), Le(mx, capT))
+		} else {
+			g = append(g, Le(hi, capT))
+		}
+		goal := And(g...)
+		if goal.S == "true" {
+			return
+		}
+		vc.oblige("S", fmt.Sprintf("slice-bounds#%d", vc.ord("slice-bounds")), reach, goal, vc.propTags("C04"), ins.Pos(), "slice expression within bounds")
+		vc.assume(Implies(reach, goal))
+	}
 	switch xt := ins.X.Type().Underlying().(type) {
 	case *types.Pointer:
 		arr := xt.Elem().Underlying().(*types.Array)
@@ -281,8 +298,13 @@ func (vc *FuncVC) execSlice(st *State, reach Term, ins *ssa.Slice) {
 		if ins.High != nil {
 			hi = vc.scalar(ins.High)
 		}
+		bounds(hi, IntLit(arr.Len()))
+		capT := Sub(IntLit(arr.Len()), lo)
+		if ins.Max != nil {
+			capT = Sub(vc.scalar(ins.Max), lo)
+		}
 		es := vc.L.sizeOf(arr.Elem())
-		vc.vals[ins] = &Val{Kind: vSlice, Elems: []*Val{{T: Add(base, Mul(IntLit(es), lo))}, {T: Sub(hi, lo)}}, GoType: ins.Type()}
+		vc.vals[ins] = &Val{Kind: vSlice, Elems: []*Val{{T: Add(base, Mul(IntLit(es), lo))}, {T: Sub(hi, lo)}, {T: capT}}, GoType: ins.Type()}
 	case *types.Slice:
 		v := vc.val(ins.X)
 		if v.Kind != vSlice {
@@ -293,10 +315,16 @@ func (vc *FuncVC) execSlice(st *State, reach Term, ins *ssa.Slice) {
 		if ins.High != nil {
 			hi = vc.scalar(ins.High)
 		}
+		oldCap := vc.capOf(v)
+		bounds(hi, oldCap)
+		capT := Sub(oldCap, lo)
+		if ins.Max != nil {
+			capT = Sub(vc.scalar(ins.Max), lo)
+		}
 		es := vc.L.sizeOf(xt.Elem())
-		vc.vals[ins] = &Val{Kind: vSlice, Elems: []*Val{{T: Add(v.Elems[0].T, Mul(IntLit(es), lo))}, {T: Sub(hi, lo)}}, GoType: ins.Type()}
+		vc.vals[ins] = &Val{Kind: vSlice, Elems: []*Val{{T: Add(v.Elems[0].T, Mul(IntLit(es), lo))}, {T: Sub(hi, lo)}, {T: capT}}, GoType: ins.Type()}
 	default:
-		// strings
+		// strings: lengths are not modelled, no bounds obligation (listed as not covered)
 		vc.vals[ins] = vc.freshVal("strslice", ins.Type())
 	}
 }
@@ -316,7 +344,7 @@ func (vc *FuncVC) execField(ins *ssa.Field) {
 	n := vc.leafCount(stt.Field(ins.Field).Type())
 	ft := stt.Field(ins.Field).Type()
 	if _, isSlice := ft.Underlying().(*types.Slice); isSlice {
-		vc.vals[ins] = &Val{Kind: vSlice, Elems: []*Val{{T: x.Flat[start]}, {T: x.Flat[start+1]}}, GoType: ft}
+		vc.vals[ins] = &Val{Kind: vSlice, Elems: []*Val{{T: x.Flat[start]}, {T: x.Flat[start+1]}, vc.freshCap(x.Flat[start+1])}, GoType: ft}
 		return
 	}
 	if _, ok := scalarSort(ft); ok {
